@@ -10,7 +10,7 @@
 (*    every memo entry).                                                   *)
 (* Record kinds: reset | op | opaque | persist | query | panic.            *)
 (***************************************************************************)
-EXTENDS AdfRobddOps, AdfSem, Json, IOUtils
+EXTENDS AdfRobddOps, AdfSem, BigBdd, Json, IOUtils
 
 Rec == ndJsonDeserialize(IOEnv.TRACE)
 
@@ -198,6 +198,69 @@ CheckAdfQuery(r) ==
   /\ Report(\A i \in DOMAIN r.formulacounts : ModelsOK(r.formulacounts[i], DenN(ns, r.terms[i], nv), Depth(ns, r.terms[i]), nv),
             r.id, "C13", "formulacounts")
 
+\* ---------------------------------------------------------------- large stores (record kind "bigseq"), BigBdd operators
+CheckBigSeq(r) ==
+  LET ns == r.nodes  nv == r.nv  U == AllA(nv) IN
+  IF ~Wellformed(ns, nv) THEN Report(FALSE, r.id, "C06", "table-big-malformed")
+  ELSE
+  LET D  == DenAll(ns, nv)
+      H(h) == h \in HN(ns)
+      Dn(h) == D[h + 1]
+      pb == PathsB(ns, 0, <<>>)  pt == PathsB(ns, 1, <<>>)  dp == DepthB(ns, <<>>)
+      MOK(mc, h) == mc[1] + mc[2] = P2(dp[h + 1]) /\ mc[2] * P2(nv) = Cardinality(Dn(h)) * P2(dp[h + 1])
+      exception == r.feat.adhoccounting /\ ~r.feat.adhoccountmodels
+  IN
+  \* C06: reduced, ordered, duplicate-free, same function => same handle, constants
+  /\ Report(Reducedb(ns) /\ Orderedb(ns) /\ NoDupb(ns), r.id, "C06", "table-big-structure")
+  /\ Report(Canonicalb(D), r.id, "C06", "table-big-canonical")
+  /\ Report({ <<e[1], e[2]>> : e \in RangeOf(r.dump.uniq) } = { <<ns[h + 1], h>> : h \in 2..(Len(ns) - 1) }, r.id, "C06", "uniq-big")
+  \* C07: the table only grows; every operation returned a handle of the named function of its operands
+  /\ Report(\A i \in DOMAIN r.cps : IsPrefix(r.cps[i].nodes, ns) /\ Len(r.cps[i].nodes) = (IF r.cps[i].at = 0 THEN 2 ELSE r.ops[r.cps[i].at].len),
+            r.id, "C07", "prefix-big")
+  /\ Report(\A i \in DOMAIN r.ops : r.ops[i].len <= Len(ns) /\ (i > 1 => r.ops[i - 1].len <= r.ops[i].len), r.id, "C07", "prefix-big-len")
+  /\ \A i \in DOMAIN r.ops :
+        LET o == r.ops[i]
+            before == IF i = 1 THEN 2 ELSE r.ops[i - 1].len IN
+        Report(/\ o.r < o.len /\ o.a < before /\ o.b < before
+               /\ CASE o.op = "var"      -> Dn(o.r) = VarFn(o.v, U)
+                    [] o.op = "restrict" -> Dn(o.r) = Cofactorb(Dn(o.a), o.v, o.val, U)
+                    [] o.op = "not"      -> Dn(o.r) = U \ Dn(o.a)
+                    [] OTHER             -> Dn(o.r) = SemOpb(o.op, Dn(o.a), Dn(o.b), U),
+               r.id, "C07", <<"big", i, o.op>>)
+  \* C11: memo tables of the large store
+  /\ Report(\A e \in RangeOf(r.dump.ite) : H(e[1]) /\ H(e[2]) /\ H(e[3]) /\ H(e[4]) /\
+                 Dn(e[4]) = { A \in U : IF A \in Dn(e[1]) THEN A \in Dn(e[2]) ELSE A \in Dn(e[3]) }, r.id, "C11", "memo-big-ite")
+  /\ Report(\A e \in RangeOf(r.dump.rc) : H(e[1]) /\ H(e[4]) /\ Dn(e[4]) = Cofactorb(Dn(e[1]), e[2], e[3], U), r.id, "C11", "memo-big-restrict")
+  \* C13: dependency lists and the count cache of every handle; the queries of a few
+  /\ Report(r.feat.variablelist => Len(r.dump.deps) = Len(ns) /\ \A h \in HN(ns) : RangeOf(r.dump.deps[h + 1]) = DepSetb(Dn(h), nv),
+            r.id, "C13", "deps-list-big")
+  /\ Report(r.feat.adhoccounting =>
+              /\ { e[1] : e \in RangeOf(r.dump.cnt) } = HN(ns)
+              /\ \A e \in RangeOf(r.dump.cnt) : e[4] = pb[e[1] + 1] /\ e[5] = pt[e[1] + 1] /\ e[6] = dp[e[1] + 1]
+                                                /\ (r.feat.adhoccountmodels => MOK(<<e[2], e[3]>>, e[1])),
+            r.id, "C13", "count-cache-big")
+  /\ \A qi \in DOMAIN r.queries :
+        LET q == r.queries[qi]  h == q.h  f == Dn(h)  pc == <<pb[h + 1], pt[h + 1]>>  tl == q.termlist IN
+        /\ Report(q.paths_memo = pc /\ q.paths_naive = pc, q.id, "C13", "paths")
+        /\ Report(MOK(q.models_naive, h), q.id, "C13", "models-naive")
+        /\ Report(exception \/ MOK(q.models_memo, h), q.id, "C13", "models-memo")
+        /\ Report(q.depth = dp[h + 1], q.id, "C13", "depth")
+        /\ Report(RangeOf(q.deps) = DepSetb(f, nv) /\ Len(q.deps) = Cardinality(DepSetb(f, nv)), q.id, "C13", "deps")
+        /\ Report(q.passive = Cardinality({ i \in DOMAIN tl : q.ivar \in DepSetb(Dn(tl[i]), nv) }), q.id, "C13", "passive")
+        /\ Report(q.active = Cardinality({ i \in 0..(Len(tl) - 1) : i \in DepSetb(Dn(tl[q.ivar + 1]), nv) }), q.id, "C13", "active")
+        /\ Report(h <= 1 \/ \A i \in DOMAIN q.cubes :
+                     LET c == q.cubes[i]  cs == c.cubes  G == { A \in U : Bit(A, c.gv) = c.goal } IN
+                     /\ \A x, y \in DOMAIN cs : x # y => CubeSetb(cs[x], U) \cap CubeSetb(cs[y], U) = {}
+                     /\ (UNION { CubeSetb(cs[x], U) : x \in DOMAIN cs }) \cap G = { A \in G : (A \in f) = c.goal },
+                  q.id, "C13", "cubes")
+  /\ PrintT(<<"BIGSEQ", l, r.id, nv, Len(ns), Len(r.ops)>>)
+
+\* the two representations of a denotation agree (checked on the small tables): integer A <-> set of its true variables
+BigAgrees(ns, nv, D) ==
+  ~Wellformed(ns, nv) \/
+  LET DB == DenAll(ns, nv) IN
+  \A h \in HandlesN(ns) : { { v \in 0..(nv - 1) : Bit(A, v) } : A \in DB[h + 1] } = D[h]
+
 \* ---------------------------------------------------------------- the trace machine
 Drift(id, what) == PrintT(<<"DRIFT", l, id, what>>)
 
@@ -216,6 +279,7 @@ Next ==
      CASE r.kind = "reset" ->
             LET D == Dtab(r.nodes, r.nv) IN
             /\ AuditTables(r, D) \in BOOLEAN
+            /\ (BigAgrees(r.nodes, r.nv, D) \/ PrintT(<<"SPECBUG", l, r.id, "BigBdd and RobddOps denotations differ">>)) \in BOOLEAN
             /\ Resync(r, D) /\ prev' = r.nodes
        [] r.kind = "op" ->
             LET D == Dtab(r.nodes, r.nv)
@@ -258,6 +322,9 @@ Next ==
             /\ UNCHANGED prev
        [] r.kind = "query" ->
             /\ CheckQuery(r) \in BOOLEAN
+            /\ UNCHANGED <<S, prev, synced>>
+       [] r.kind = "bigseq" ->
+            /\ CheckBigSeq(r) \in BOOLEAN
             /\ UNCHANGED <<S, prev, synced>>
        [] r.kind = "adfquery" ->
             /\ CheckAdfQuery(r) \in BOOLEAN
